@@ -92,6 +92,26 @@ CLAIMS["C18"] = ("other", "guard dominance for every action the bot submits (Has
 
 REASONS = {}
 
+# obligations added in round 8 of the seeded changes (DESIGN.md §10): appended to the hand-kept texts above
+ROUND8 = {
+ "C01": ("; who-may-write of the engine's table pointer", " Also: the table object holding the bankrolls is replaced only by a new table or the open step's clone (R9)."),
+ "C02": ("; success-exit guards of the hand's wager validator", " Also: the wager validator's success exits establish index == current player of the hand's own state (R9)."),
+ "C03": ("; exit classification of the seat look-ups", " Also: a look-up by id answers only from its scan of the seats; every other exit refuses (R8 seat-scan-only-answer)."),
+ "C04": ("; who-may-write of the position memory; dominance of the eligible count by the waiting-flag refresh loop", " Also: dealer/SB/BB seats and the initialised mark are written only by first positioning and rotation (R11); the eligible count that decides refusal / heads-up is taken after the waiting flags were re-evaluated (R4)."),
+ "C06": ("", " Also: a newly assigned seat's waiting flag is computed for the seated id after the seat is recorded (R12, shared with C05.R5)."),
+ "C08": ("; dominance of the eligible count by the waiting-flag refresh loop", " Also: the rotation every next hand depends on counts eligible players after the waiting refresh (R8)."),
+ "C09": ("; call closure of the completion path", " Also: nothing on the completion path operates on the shared ready group (R3)."),
+ "C11": ("; classification of refusal exits of the group-answer methods", " Also: an asked player's answer is refused only by the entry validator, the unknown-event test or the backend (R10)."),
+ "C13": ("", " R1 counts a store to any field of the hand object."),
+ "C15": ("; who-may-write of the table's state pointer", " Also: the state object of a live table is never replaced (R6)."),
+ "C18": ("; must-hold lockset of the actor's mutex at the hand-over to the runner; barrier reachability of the freshness comparison", " Also: the actor hands views to its runner with its mutex write-held (R9); every view with a hand state passes the freshness comparison before a move is requested (R6; found and fixed F20)."),
+ "C19": ("; must-hold lockset of the actor's mutex at the hand-over to the runner; barrier reachability of the freshness comparison", " Also: the actor hands views to its runner with its mutex write-held (R8); every view with a hand state passes the freshness comparison before the timer is armed (R7)."),
+ "C20": ("; definition check of Table's text encoders", " Also: every successful return of Table's text encoders is string(json.Marshal(receiver)) of that call (R2 encoder:definition)."),
+}
+for _pid, (_t, _x) in ROUND8.items():
+    _c = CLAIMS[_pid]
+    CLAIMS[_pid] = (_c[0], _c[1] + _t, _c[2] + _x, _c[3], _c[4])
+
 checks = []
 for pid in sorted(CLAIMS):
     cat, tech, text, ref, note = CLAIMS[pid]
